@@ -25,14 +25,6 @@ mut("c10-md4-no-initstate-after-error", ["C10"], "crysp/md.py",
     "    def __call__(self,M,bitlen=None):\n        self.initstate()\n        return self.update(M,bitlen=bitlen,padding=True)\n\n    def update(self,M,bitlen=None,padding=False):\n        for W in self.iterblocks(M,bitlen=bitlen,padding=padding):\n            a,b,c,d = self.H\n            assert len(W)==16\n            W.extend([W[i] for i in (0,4,8,12",
     "    def __call__(self,M,bitlen=None):\n        r = self.update(M,bitlen=bitlen,padding=True)\n        self.initstate()\n        return r\n\n    def update(self,M,bitlen=None,padding=False):\n        for W in self.iterblocks(M,bitlen=bitlen,padding=padding):\n            a,b,c,d = self.H\n            assert len(W)==16\n            W.extend([W[i] for i in (0,4,8,12",
     "MD4/MD5 one-shot resets at the END of the call instead of the start: a call that raised (or update() before) leaks into the next digest")
-mut("c10-ctr-no-counter-reset", ["C10"], "crysp/mode.py",
-    "    def enc(self,M):\n        self.counter.reset()\n        self.pad.reset()\n        C = []\n        for b in self.iterblocks(M):\n            c = self.counter()",
-    "    def enc(self,M):\n        if not hasattr(self.counter,'count'): self.counter.reset()\n        self.pad.reset()\n        C = []\n        for b in self.iterblocks(M):\n            c = self.counter()",
-    "CTR.enc resets the counter only on first use: second enc continues the counter")
-mut("c10-aes-class-keyschedule", ["C10"], "crysp/aes.py",
-    "        self.K = K\n        self.__w = None\n",
-    "        self.K = K\n",
-    "AES key schedule cached on the class (the instance attribute is never initialised, so the cache lives on the class through the name-mangled class attribute)",)
 mut("c10-keccak-state-attr", ["C10"], "crysp/keccak.py",
     "        # create state (null) :\n        S = State(self.w)\n",
     "        # create state (null) :\n        S = getattr(self,'_S',None) or State(self.w)\n",
@@ -49,14 +41,10 @@ mut("c10-salsa-nonce-once", ["C10"], "crysp/salsa20.py",
     "        self.p[6:8] = v.split(32)\n",
     "        if self.p[6:8].is_zero(): self.p[6:8] = v.split(32)\n",
     "Salsa20 nonce written only when the slot is zero: second enc with another nonce reuses the first")
-mut("c10-hmac-pad-cache", ["C10", "C13"], "crysp/hmac.py",
+mut("c10-hmac-pad-cache", ["C13"], "crysp/hmac.py",
     "        assert self.K\n        a = self.K\n        b = bytes(b'\\x5c'*(self.h.blocksize//8))\n        opad = bytes([x^y for (x,y) in zip(a,b)])\n        b = bytes(b'\\x36'*(self.h.blocksize//8))\n        ipad = bytes([x^y for (x,y) in zip(a,b)])\n",
     "        assert self.K\n        if not hasattr(self,'_pads'):\n            a = self.K\n            b = bytes(b'\\x5c'*(self.h.blocksize//8))\n            opad = bytes([x^y for (x,y) in zip(a,b)])\n            b = bytes(b'\\x36'*(self.h.blocksize//8))\n            ipad = bytes([x^y for (x,y) in zip(a,b)])\n            self._pads = (opad,ipad)\n        opad,ipad = self._pads\n",
     "HMAC caches ipad/opad across setkey: after setkey(K2) the MAC still uses K1 (only after a first mac call)")
-mut("c10-mode-iterblocks-leak", ["C10"], "crysp/mode.py",
-    "    def enc(self,M):\n        self.pad.reset()\n        C = [self.IV]\n",
-    "    def enc(self,M):\n        if self.pad.padflag: self.pad.reset()\n        C = [self.IV]\n",
-    "CBC.enc resets its pad only if the previous message was completed: enc after a failed/abandoned enc raises or mis-pads")
 mut("c10-nilsimsa-window-leak", ["C10"], "crysp/nilsimsa.py",
     "    def __call__(self,data):\n        self.reset()\n        return self.update(data).digest()",
     "    def __call__(self,data):\n        self.count = 0\n        self.dacc = [0]*256\n        return self.update(data).digest()",
@@ -71,10 +59,6 @@ mut("c13-setkey-prefix", ["C13"], "crysp/hmac.py",
     "        elif len(k)<sz: k +=getattr(self,'K',b'\\0'*sz)[len(k):]\n        self.K = bytes(k)",
     "setkey overwrites only a prefix of the old key material")
 # ---- C14 / C09 ------------------------------------------------------------------------------
-mut("c14-continuation-counter-zero", ["C14", "C09"], "crysp/padding.py",
-    "        bitcnt = 0\n        start = self.bitcnt\n",
-    "        bitcnt = 0\n        start = self.bitcnt if padding else 0\n",
-    "iterblocks continuation (padding=False) starts its counter at 0: counters do not accumulate")
 mut("c14-update-reinit", ["C14"], "crysp/sha.py",
     "    def update(self,M,bitlen=None,padding=False):\n        for W in self.iterblocks(M,bitlen=bitlen,padding=padding):\n            a,b,c,d,e,f,g,h = self.H",
     "    def update(self,M,bitlen=None,padding=False):\n        if padding and self.padmethod.bitcnt==0: self.initstate()\n        for W in self.iterblocks(M,bitlen=bitlen,padding=padding):\n            a,b,c,d,e,f,g,h = self.H",
@@ -87,10 +71,6 @@ mut("c14-blake-counter-stale", ["C14"], "crysp/blake.py",
     "            t0,t1 = Bits(self.padmethod.bitcnt,2*self.wsize).split(self.wsize)\n",
     "            t0,t1 = Bits(self.padmethod.bitcnt if padding else getattr(self,'_lastcnt',0)+self.blocksize,2*self.wsize).split(self.wsize)\n            self._lastcnt = int(t0)|(int(t1)<<self.wsize)\n",
     "BLAKE keeps its own block counter across update() calls but never resets it in initstate(): the second stream on one object uses stale counts")
-mut("c09-reset-forgets-padcnt", ["C09"], "crysp/padding.py",
-    "        self.padflag = False\n        self.bitcnt = 0\n        self.padcnt = 0\n",
-    "        self.padflag = False\n        self.bitcnt = 0\n",
-    "reset() forgets padcnt (constructor no longer defines it either -> AttributeError on read before first pad; after reset stale)")
 mut("c09-padflag-refusal-removed", ["C09"], "crysp/padding.py",
     "        if self.padflag: raise PaddingError(\"padding already added\")\n",
     "        if self.padflag and padding: raise PaddingError(\"padding already added\")\n",
@@ -104,10 +84,6 @@ mut("c06-rc4-ij-not-stored", ["C06"], "crysp/rc4.py",
     "        self.i,self.j = i,j\n        return Poly(ks,8)",
     "        if l>1: self.i,self.j = i,j\n        else: self.i,self.j = i,self.j\n        return Poly(ks,8)",
     "RC4.keystream does not store j after a 1-byte request")
-mut("c06-rc4-enc-rekeys", ["C06"], "crysp/rc4.py",
-    "    def enc(self,m):\n        return pack(Poly(m)^self.keystream(len(m)))",
-    "    def enc(self,m):\n        if len(m)>=256 and self.i==0 and self.j==0: self.ksa()\n        if self.i+len(m)>=4096: self.ksa()\n        return pack(Poly(m)^self.keystream(len(m)))",
-    "(inert) guard never true because i<256", expect="clean")
 mut("c06-rc4-dec-rekeys", ["C06"], "crysp/rc4.py",
     "    def dec(self,c):\n        return self.enc(c)",
     "    def dec(self,c):\n        self.ksa()\n        return self.enc(c)",
@@ -160,9 +136,6 @@ mut("ok-rename-private", ["C10", "C14", "C09"], "crysp/padding.py",
     "        P = BytesIO(m)\n        Pi = P.read(self.blocklen)\n",
     "        P = BytesIO(bytes(m))\n        Pi = P.read(self.blocklen)\n",
     "behaviour-preserving: copy of the input", expect="clean")
-mut("ok-exception-message", ["C09", "C10"], "crysp/padding.py",
-    "raise PaddingError(\"padding already added\")", "raise PaddingError(\"message already padded\")",
-    "behaviour-preserving: message text", expect="clean")
 mut("ok-initstate-twice", ["C10", "C14"], "crysp/sha.py",
     "    def __call__(self,M,bitlen=None):\n        self.initstate()\n        return self.update(M,bitlen=bitlen,padding=True)\n\n    def update(self,M,bitlen=None,padding=False):\n        for W in self.iterblocks(M,bitlen=bitlen,padding=padding):\n            a,b,c,d,e = self.H",
     "    def __call__(self,M,bitlen=None):\n        self.initstate()\n        self.initstate()\n        return self.update(M,bitlen=bitlen,padding=True)\n\n    def update(self,M,bitlen=None,padding=False):\n        for W in self.iterblocks(M,bitlen=bitlen,padding=padding):\n            a,b,c,d,e = self.H",
@@ -180,6 +153,29 @@ mut("ok-rc4-local-names", ["C06"], "crysp/rc4.py",
     "        ks = []\n        i = self.i\n        j = self.j\n        while len(ks)<l:",
     "behaviour-preserving", expect="clean")
 
+mut("c10-ctr-reset-at-end", ["C10"], "crysp/mode.py",
+    "        self.counter = counter\n\n    # encryption mode\n    def enc(self,M):\n        self.counter.reset()\n        self.pad.reset()\n        C = []\n        for b in self.iterblocks(M):\n            c = self.counter()\n            k = self._cipher.enc(c)\n            x = self.xorstr(b,k)\n            C.append(x)\n        return b''.join(C)",
+    "        self.counter = counter\n        try: self.counter.reset()\n        except AttributeError: pass\n\n    # encryption mode\n    def enc(self,M):\n        self.pad.reset()\n        C = []\n        for b in self.iterblocks(M):\n            c = self.counter()\n            k = self._cipher.enc(c)\n            x = self.xorstr(b,k)\n            C.append(x)\n        self.counter.reset()\n        return b''.join(C)",
+    "CTR.enc rewinds the counter when it is done instead of when it starts: after an enc that failed or was interrupted half-way the next enc continues the counter")
+mut("c06-rc4-enc-rekeys-on-ij-zero", ["C06"], "crysp/rc4.py",
+    "    def enc(self,m):\n        return pack(Poly(m)^self.keystream(len(m)))",
+    "    def enc(self,m):\n        if len(m)>=256 and self.i==0 and self.j==0: self.ksa()\n        return pack(Poly(m)^self.keystream(len(m)))",
+    "RC4.enc re-runs the key schedule when it sees i==j==0 before a long piece ('object looks fresh'): harmless at the start of a stream, restarts the keystream when i==j==0 recurs mid-stream (offset multiple of 256 with j==0)", runs=12000)
+mut("c14-continuation-counter-stops", ["C14", "C09"], "crysp/padding.py",
+    "        bitcnt = 0\n        start = self.bitcnt\n",
+    "        bitcnt = 0\n        start = self.bitcnt if (padding or self.bitcnt<2*self.blocksize) else 2*self.blocksize\n",
+    "iterblocks continuation (padding=False) stops accumulating its counter beyond two blocks")
+mut("c09-reset-keeps-padcnt", ["C09"], "crysp/padding.py",
+    "        self.blocklen = n\n        self.reset()\n    def reset(self):\n        self.padflag = False\n        self.bitcnt = 0\n        self.padcnt = 0\n",
+    "        self.blocklen = n\n        self.padcnt = 0\n        self.reset()\n    def reset(self):\n        self.padflag = False\n        self.bitcnt = 0\n",
+    "reset() no longer clears padcnt: after reset the object still reports the previous message's pad-bit count")
+mut("eq-cbc-reset-only-if-padded", ["C10"], "crysp/mode.py",
+    "    def enc(self,M):\n        self.pad.reset()\n        C = [self.IV]\n",
+    "    def enc(self,M):\n        if self.pad.padflag or self.pad.bitcnt: self.pad.reset()\n        C = [self.IV]\n",
+    "equivalent change: CBC.enc resets its pad only when it is not already in the reset state", expect="clean")
+mut("ok-no-close", ["C09", "C10", "C14"], "crysp/padding.py",
+    "            yield Pi\n        P.close()\n", "            yield Pi\n",
+    "behaviour-preserving: in-memory cursor is not closed explicitly", expect="clean")
 # a second defect on the kind of an open known finding must still be reported
 mut("c10-nullpad-other-defect", ["C10"], "crysp/padding.py",
     "        b=Bits(m[-self.blocklen:])\n        b.size -= self.padcnt\n        return m[:-self.blocklen]+b.bytes()",
